@@ -26,7 +26,7 @@ Definition table_of (o : regop) : N :=
   | AddDevNonce _ _ => 3
   | CreateGateway _ | UpdateGateway _ | DeleteGateway _ => 4
   | CreateUpstreamMessage _ => 5
-  | CreateDownstreamMessage _ | DeleteDownstreamMessage _ _ => 6
+  | CreateDownstreamMessage _ | DeleteDownstreamMessage _ _ | SetMessageSentTime _ _ _ _ | UpdateMessageAckTime _ _ _ | ResetActiveAcks _ => 6
   | _ => 0
   end.
 Theorem only_own_table s o :
@@ -301,28 +301,57 @@ Proof.
   - intros m. cbn [a_step]. destruct (existsb _ (a_ups s)); cbn; [discriminate|]. intros _. unfold inbox_of. cbn.
     rewrite filter_app. cbn. now rewrite N.eqb_refl.
 Qed.
+Definition down_target (o : regop) : option N :=
+  match o with
+  | CreateDownstreamMessage m => Some (dn_eui m)
+  | DeleteDownstreamMessage e _ | SetMessageSentTime e _ _ _ | UpdateMessageAckTime e _ _ | ResetActiveAcks e => Some e
+  | _ => None
+  end.
+Lemma filter_map_hit e (c : downm -> bool) (f : downm -> downm) l : (forall x, dn_eui (f x) = dn_eui x) ->
+  filter (fun x => dn_eui x =? e) (map (fun x => if (dn_eui x =? e) && c x then f x else x) l)
+  = map (fun x => if c x then f x else x) (filter (fun x => dn_eui x =? e) l).
+Proof.
+  intros Hf. induction l as [|h t IH]; [reflexivity|]. cbn [map filter].
+  destruct (dn_eui h =? e) eqn:E1; cbn [andb map].
+  - destruct (c h); [rewrite Hf|]; rewrite E1; now f_equal.
+  - rewrite E1. exact IH.
+Qed.
 Theorem downstream_laws s :
-  (forall o e, (forall m, o = CreateDownstreamMessage m -> dn_eui m <> e) -> (forall c, o <> DeleteDownstreamMessage e c) ->
-               outbox_of (fst (a_step s o)) e = outbox_of s e) /\
+  (forall o e, down_target o <> Some e -> outbox_of (fst (a_step s o)) e = outbox_of s e) /\
   (forall m, snd (a_step s (CreateDownstreamMessage m)) = ROk ->
              outbox_of (fst (a_step s (CreateDownstreamMessage m))) (dn_eui m) = outbox_of s (dn_eui m) ++ [m]) /\
   (forall e c, snd (a_step s (DeleteDownstreamMessage e c)) = ROk ->
                outbox_of (fst (a_step s (DeleteDownstreamMessage e c))) e = filter (fun x => negb (dn_created x =? c)%Z) (outbox_of s e)).
 Proof.
+  assert (Other : forall e e0 (c : downm -> bool) (f : downm -> downm) l, e0 <> e -> (forall x, dn_eui (f x) = dn_eui x) ->
+    filter (fun x => dn_eui x =? e) (map (fun x => if (dn_eui x =? e0) && c x then f x else x) l) = filter (fun x => dn_eui x =? e) l).
+  { intros e e0 c f l Hne Hf. induction l as [|h t IH]; [reflexivity|]. cbn [map filter].
+    destruct (N.eqb_spec (dn_eui h) e0) as [E1|E1]; cbn [andb].
+    - destruct (c h); [rewrite Hf|]; (replace (dn_eui h =? e) with false by (symmetry; apply N.eqb_neq; congruence)); exact IH.
+    - destruct (dn_eui h =? e); [f_equal|]; exact IH. }
   repeat split.
-  - intros o e Hn Hd. unfold outbox_of. destruct (N.eq_dec (table_of o) 6) as [E|E].
+  - intros o e Hn. unfold outbox_of. destruct (N.eq_dec (table_of o) 6) as [E|E].
     2:{ now rewrite (proj2 (proj2 (proj2 (proj2 (proj2 (only_own_table s o))))) E). }
-    destruct o; cbn [table_of] in E; try discriminate; cbn [a_step].
+    destruct o; cbn [table_of] in E; try discriminate; cbn [a_step down_target] in *.
     + destruct (existsb _ (a_downs s)); cbn; [reflexivity|]. rewrite filter_app. cbn.
-      destruct (N.eqb_spec (dn_eui m) e) as [He|Hne]; [exfalso; now apply (Hn m)|]. now rewrite app_nil_r.
+      destruct (N.eqb_spec (dn_eui m) e) as [He|Hne]; [exfalso; apply Hn; now f_equal|]. now rewrite app_nil_r.
     + destruct (existsb _ (a_downs s)); cbn; [|reflexivity].
-      assert (e0 <> e) by (intros ->; now apply (Hd created)).
+      assert (e0 <> e) by congruence.
       induction (a_downs s) as [|h t IH]; [reflexivity|]. cbn.
       destruct (N.eqb_spec (dn_eui h) e0) as [E1|E1]; cbn.
       * destruct (dn_created h =? created)%Z; cbn.
         -- destruct (N.eqb_spec (dn_eui h) e); [congruence | exact IH].
         -- destruct (dn_eui h =? e); [f_equal|]; exact IH.
       * destruct (dn_eui h =? e); [f_equal|]; exact IH.
+    + destruct (existsb _ (a_downs s)); cbn [fst]; [|reflexivity]. cbn [a_downs set_downs]. apply Other; [congruence | reflexivity].
+    + destruct (existsb _ (a_downs s)); cbn [fst]; [|reflexivity]. cbn [a_downs set_downs].
+      rewrite (map_ext _ (fun x => if (dn_eui x =? e0) && ((dn_fcnt x =? fc) && (0 <? dn_sent x)%Z && (dn_acktime x =? 0)%Z) then dn_times x (dn_sent x) ackt (dn_fcnt x) else x))
+        by (intros x; now rewrite !andb_assoc).
+      apply Other; [congruence | reflexivity].
+    + cbn [fst a_downs set_downs].
+      rewrite (map_ext _ (fun x => if (dn_eui x =? e0) && ((0 <? dn_sent x)%Z && (dn_acktime x =? 0)%Z && dn_ack x) then dn_times x 0%Z (dn_acktime x) 0 else x))
+        by (intros x; now rewrite !andb_assoc).
+      apply Other; [congruence | reflexivity].
   - intros m. cbn [a_step]. destruct (existsb _ (a_downs s)); cbn; [discriminate|]. intros _. unfold outbox_of. cbn.
     rewrite filter_app. cbn. now rewrite N.eqb_refl.
   - intros e c. cbn [a_step]. destruct (existsb _ (a_downs s)); cbn; [|discriminate]. intros _. unfold outbox_of. cbn.
@@ -330,4 +359,43 @@ Proof.
     destruct (N.eqb_spec (dn_eui h) e) as [E1|E1]; cbn.
     + destruct (dn_created h =? c)%Z; cbn; [exact IH|]. apply N.eqb_eq in E1. rewrite E1. f_equal. exact IH.
     + apply N.eqb_neq in E1. rewrite E1. exact IH.
+Qed.
+
+(* the status operations, seen on the device's own queue: exactly the messages the condition names change,
+   and only in their time / counter columns *)
+Theorem message_status_laws s e :
+  (forall c sent fc, outbox_of (fst (a_step s (SetMessageSentTime e c sent fc))) e
+     = map (fun x => if (dn_created x =? c)%Z then dn_times x sent (dn_acktime x) fc else x) (outbox_of s e)) /\
+  (forall fc ackt, outbox_of (fst (a_step s (UpdateMessageAckTime e fc ackt))) e
+     = map (fun x => if (dn_fcnt x =? fc) && (0 <? dn_sent x)%Z && (dn_acktime x =? 0)%Z then dn_times x (dn_sent x) ackt (dn_fcnt x) else x) (outbox_of s e)) /\
+  (outbox_of (fst (a_step s (ResetActiveAcks e))) e
+     = map (fun x => if (0 <? dn_sent x)%Z && (dn_acktime x =? 0)%Z && dn_ack x then dn_times x 0%Z (dn_acktime x) 0 else x) (outbox_of s e)) /\
+  (snd (a_step s (GetNextUnsentMessage e))
+     = match sort_by dn_created (filter (fun x => (dn_sent x =? 0)%Z) (outbox_of s e)) with m :: _ => RDowns [m] | [] => RNotFound end).
+Proof.
+  unfold outbox_of. repeat split.
+  - intros c sent fc. cbn [a_step]. destruct (existsb _ (a_downs s)) eqn:Ex; cbn [fst a_downs set_downs].
+    + apply filter_map_hit. reflexivity.
+    + (* no message of the device was created at c: nothing to change *)
+      rewrite <- (map_id (filter _ (a_downs s))) at 1. apply map_ext_in. intros x Hx. apply filter_In in Hx. destruct Hx as [Hin He].
+      destruct (dn_created x =? c)%Z eqn:Ec; [|reflexivity]. exfalso.
+      assert (existsb (fun x0 => (dn_eui x0 =? e) && (dn_created x0 =? c)%Z) (a_downs s) = true) by (apply existsb_exists; exists x; now rewrite He, Ec).
+      congruence.
+  - intros fc ackt. cbn [a_step]. destruct (existsb _ (a_downs s)) eqn:Ex; cbn [fst a_downs set_downs].
+    + rewrite (map_ext _ (fun x => if (dn_eui x =? e) && ((dn_fcnt x =? fc) && (0 <? dn_sent x)%Z && (dn_acktime x =? 0)%Z) then dn_times x (dn_sent x) ackt (dn_fcnt x) else x))
+        by (intros x; now rewrite !andb_assoc).
+      apply filter_map_hit. reflexivity.
+    + rewrite <- (map_id (filter _ (a_downs s))) at 1. apply map_ext_in. intros x Hx. apply filter_In in Hx. destruct Hx as [Hin He].
+      destruct ((dn_fcnt x =? fc) && (0 <? dn_sent x)%Z && (dn_acktime x =? 0)%Z) eqn:Ec; [|reflexivity]. exfalso.
+      assert (existsb (fun x0 => (dn_eui x0 =? e) && (dn_fcnt x0 =? fc) && (0 <? dn_sent x0)%Z && (dn_acktime x0 =? 0)%Z) (a_downs s) = true).
+      { apply existsb_exists. exists x. split; [exact Hin|]. rewrite <- !andb_assoc. rewrite He. cbn [andb]. rewrite !andb_assoc. exact Ec. }
+      congruence.
+  - cbn [a_step fst a_downs set_downs].
+    rewrite (map_ext _ (fun x => if (dn_eui x =? e) && ((0 <? dn_sent x)%Z && (dn_acktime x =? 0)%Z && dn_ack x) then dn_times x 0%Z (dn_acktime x) 0 else x))
+      by (intros x; now rewrite !andb_assoc).
+    apply filter_map_hit. reflexivity.
+  - cbn [a_step snd]. f_equal.
+    assert (H : forall l, filter (fun x => (dn_eui x =? e) && (dn_sent x =? 0)%Z) l = filter (fun x => (dn_sent x =? 0)%Z) (filter (fun x => dn_eui x =? e) l)).
+    { induction l as [|h t IH]; [reflexivity|]. cbn [filter]. destruct (dn_eui h =? e); cbn [andb filter]; [destruct (dn_sent h =? 0)%Z; now rewrite IH | exact IH]. }
+    now rewrite H.
 Qed.
